@@ -174,7 +174,7 @@ func createFilesInTar(info *nfpm.Info, tw *tar.Writer) ([]MtreeEntry, int64, err
 		case files.TypeDir, files.TypeImplicitDir:
 			entries = append(entries, MtreeEntry{
 				Destination: content.Destination,
-				Time:        content.ModTime().Unix(),
+				Time:        mtreeTime(content.ModTime()),
 				Mode:        int64(content.Mode()),
 				Type:        files.TypeDir,
 			})
@@ -202,7 +202,7 @@ func createFilesInTar(info *nfpm.Info, tw *tar.Writer) ([]MtreeEntry, int64, err
 			entries = append(entries, MtreeEntry{
 				LinkSource:  content.Source,
 				Destination: content.Destination,
-				Time:        content.ModTime().Unix(),
+				Time:        mtreeTime(content.ModTime()),
 				Mode:        0o777,
 				Type:        content.Type,
 			})
@@ -252,7 +252,7 @@ func createFilesInTar(info *nfpm.Info, tw *tar.Writer) ([]MtreeEntry, int64, err
 
 			entries = append(entries, MtreeEntry{
 				Destination: content.Destination,
-				Time:        content.ModTime().Unix(),
+				Time:        mtreeTime(content.ModTime()),
 				Mode:        int64(content.Mode()),
 				Size:        content.Size(),
 				Type:        content.Type,
@@ -265,6 +265,16 @@ func createFilesInTar(info *nfpm.Info, tw *tar.Writer) ([]MtreeEntry, int64, err
 	}
 
 	return entries, totalSize, nil
+}
+
+// mtreeTime returns the time archive/tar stores for t, so that the .MTREE says
+// the same as the tar entry: an unset time is written as the epoch and
+// sub-second times are rounded to the nearest second.
+func mtreeTime(t time.Time) int64 {
+	if t.IsZero() {
+		return 0
+	}
+	return t.Round(time.Second).Unix()
 }
 
 func defaultStr(s, def string) string {
@@ -310,7 +320,9 @@ func createPkginfo(info *nfpm.Info, tw *tar.Writer, totalSize int64) (*MtreeEntr
 		return nil, err
 	}
 
-	builddate := strconv.FormatInt(modtime.Get(info.MTime).Unix(), 10)
+	// whole seconds: archive/tar rounds, the .MTREE truncates
+	mtime := modtime.Get(info.MTime).Truncate(time.Second)
+	builddate := strconv.FormatInt(mtime.Unix(), 10)
 	totalSizeStr := strconv.FormatInt(totalSize, 10)
 
 	err = writeKVPairs(buf, map[string]string{
@@ -374,7 +386,7 @@ func createPkginfo(info *nfpm.Info, tw *tar.Writer, totalSize int64) (*MtreeEntr
 		Mode:     0o644,
 		Name:     ".PKGINFO",
 		Size:     int64(size),
-		ModTime:  modtime.Get(info.MTime),
+		ModTime:  mtime,
 	})
 	if err != nil {
 		return nil, err
@@ -392,7 +404,7 @@ func createPkginfo(info *nfpm.Info, tw *tar.Writer, totalSize int64) (*MtreeEntr
 
 	return &MtreeEntry{
 		Destination: ".PKGINFO",
-		Time:        modtime.Get(info.MTime).Unix(),
+		Time:        mtime.Unix(),
 		Mode:        0o644,
 		Size:        int64(size),
 		Type:        files.TypeFile,
